@@ -485,6 +485,12 @@ func (x *Exec) modTargets(ctx *EvalCtx, c *Contract, exprs []Expr) []ModTarget {
 				continue
 			}
 		case *ECall:
+			if gf, ok := x.ghostFields[v.Fun]; ok {
+				sort, _ := x.ghostSort(gf.Type, x.typesPkg(gf.Pkg), ctx.sf)
+				r := ctx.value(ctx.eval(v.Args[0]))
+				out = append(out, ModTarget{heap: "Gf " + gf.Name, sort: arraySort(SInt, sort), ref: &r})
+				continue
+			}
 			switch v.Fun {
 			case "elems":
 				s := ctx.eval(v.Args[0])
